@@ -32,7 +32,7 @@ LEAN = {"module": "Pygom.Props.C13",
         "required": ["Pygom.C13.sens_layout", "Pygom.C13.sens_layout_by_state", "Pygom.C13.sensIV_layout",
                      "Pygom.C13.aug_jacobian_is_derivative", "Pygom.C13.aug_jacobianIV_is_derivative",
                      "Pygom.C13.aug_jacobian_by_state_repaired_is_derivative",
-                     "Pygom.C13.aug_jacobian_by_state_counterexample",
+                     "Pygom.C13.aug_jacobian_by_state_counterexample", "Pygom.C13.aug_jacobian_by_state_as_coded_refuted",
                      "Pygom.C13.matToVecSens_vecToMatSens", "Pygom.C13.vecToMatSens_matToVecSens"]}
 BUDGET = {"quick": {"points": 70, "nP0": 10, "integrated": 20, "cython": 1},
           "thorough": {"points": 1600, "nP0": 200, "integrated": 260, "cython": 6}}
